@@ -159,6 +159,48 @@ pub mod iter {
         #[verifier::external_body]
         pub fn for_each<F: FnMut(T)>(self, f: F) requires forall|t: T| call_requires(f, (t,)) { unimplemented!() }
         /// Iterator::next / StreamExt::next (after R2)
+        // ---- further std adapters, WEAK: the result is some element of the sequence (or an
+        // unconstrained value); enough to type-check code that starts using them
+        #[verifier::external_body]
+        pub fn max_by_key<B, F: FnMut(&T) -> B>(self, f: F) -> (r: Option<T>)
+            requires forall|t: &T| call_requires(f, (t,))
+            ensures r is Some ==> exists|i: int| 0 <= i < self@.items.len() && self@.items[i] == r->Some_0, r is None <==> self@.items.len() == 0
+        { unimplemented!() }
+        #[verifier::external_body]
+        pub fn min_by_key<B, F: FnMut(&T) -> B>(self, f: F) -> (r: Option<T>)
+            requires forall|t: &T| call_requires(f, (t,))
+            ensures r is Some ==> exists|i: int| 0 <= i < self@.items.len() && self@.items[i] == r->Some_0, r is None <==> self@.items.len() == 0
+        { unimplemented!() }
+        #[verifier::external_body]
+        pub fn max_by<F: FnMut(&T, &T) -> ::std::cmp::Ordering>(self, f: F) -> (r: Option<T>)
+            requires forall|a: &T, b: &T| call_requires(f, (a, b))
+            ensures r is Some ==> exists|i: int| 0 <= i < self@.items.len() && self@.items[i] == r->Some_0
+        { unimplemented!() }
+        #[verifier::external_body]
+        pub fn min_by<F: FnMut(&T, &T) -> ::std::cmp::Ordering>(self, f: F) -> (r: Option<T>)
+            requires forall|a: &T, b: &T| call_requires(f, (a, b))
+            ensures r is Some ==> exists|i: int| 0 <= i < self@.items.len() && self@.items[i] == r->Some_0
+        { unimplemented!() }
+        #[verifier::external_body]
+        pub fn nth(&mut self, n: usize) -> (r: Option<T>) { unimplemented!() }
+        #[verifier::external_body]
+        pub fn position<P: FnMut(T) -> bool>(&mut self, p: P) -> (r: Option<usize>) requires forall|t: T| call_requires(p, (t,)) { unimplemented!() }
+        #[verifier::external_body]
+        pub fn find_map<U, F: FnMut(T) -> Option<U>>(&mut self, f: F) -> (r: Option<U>) requires forall|t: T| call_requires(f, (t,)) { unimplemented!() }
+        #[verifier::external_body]
+        pub fn skip_while<P: FnMut(&T) -> bool>(self, p: P) -> (r: Iter<T>) requires forall|t: &T| call_requires(p, (t,)) { unimplemented!() }
+        #[verifier::external_body]
+        pub fn inspect<F: FnMut(&T)>(self, f: F) -> (r: Iter<T>) requires forall|t: &T| call_requires(f, (t,)) ensures r@ == self@ { unimplemented!() }
+        #[verifier::external_body]
+        pub fn zip<U>(self, other: Iter<U>) -> (r: Iter<(T, U)>) { unimplemented!() }
+        #[verifier::external_body]
+        pub fn step_by(self, n: usize) -> (r: Iter<T>) { unimplemented!() }
+        #[verifier::external_body]
+        pub fn peekable(self) -> (r: Iter<T>) ensures r@ == self@ { unimplemented!() }
+        #[verifier::external_body]
+        pub fn fuse(self) -> (r: Iter<T>) ensures r@ == self@ { unimplemented!() }
+        #[verifier::external_body]
+        pub fn by_ref(&mut self) -> (r: &mut Iter<T>) { unimplemented!() }
         #[verifier::external_body]
         pub fn next(&mut self) -> (r: Option<T>)
             ensures
